@@ -414,6 +414,11 @@ func main() {
 		}
 		fmt.Fprintf(wi, "%s => %s\n", strings.Join(w.log, " "), outcome)
 		if cls, what := oracle(w, plan, times, n, ni, err, res); what != "" {
+			if cls == "run-log" && hasRedundantEdge(parents) {
+				// the plan itself is in a known-finding class of C02 (extra replay / dropped merge on graphs with a
+				// fast-forward parent edge): replays of a merge commit are then not adjacent and the merge flag is off
+				cls = "redundant-parent-edge"
+			}
 			js, _ := json.Marshal(map[string]interface{}{"seed": seed + int64(it), "parents": parents, "times": times,
 				"items": items, "distance": pipeline.HibernationDistance, "plan": acts})
 			hv.Fail(cls, string(js), what)
@@ -527,6 +532,28 @@ func (w *world) ccAt(k, pos int) int {
 		}
 	}
 	return cnt
+}
+
+func hasRedundantEdge(parents [][]int) bool {
+	anc := make([]map[int]bool, len(parents))
+	for i := range parents {
+		anc[i] = map[int]bool{i: true}
+		for _, p := range parents[i] {
+			for a := range anc[p] {
+				anc[i][a] = true
+			}
+		}
+	}
+	for _, ps := range parents {
+		for _, p := range ps {
+			for _, q := range ps {
+				if p != q && anc[q][p] {
+					return true
+				}
+			}
+		}
+	}
+	return false
 }
 
 func min(a, b int) int {
